@@ -93,6 +93,11 @@ def gen_specs(rng, thorough):
     for outer, dims_o, dims_i in (("Shaped", "b", "a"), ("Num", "", "a b"), ("Shaped", "3", "_ 2")):
         for inner in ("Float", "Int", "Bool", "UInt8", "Complex64", "user.Float"):
             out.append(("nested2-family", spec(outer, made(inner, A, dims_i), dims_o)))
+    # one identifier used at different levels in different roles (a plain axis inside, a multi-axis name outside, and the
+    # mirror image; `?`, `#`, `_name` variants): legal to build level by level, so the flat re-parse must take it too
+    for outer_dims, inner_dims in (("*batch", "batch features"), ("dim", "*dim 3"), ("#n", "n *n"), ("*v", "?v 2"), ("_x", "x *x"), ("a a", "*a")):
+        for outer in ("Float", "Shaped"):
+            out.append(("nested2-name-reuse", spec(outer, made("Float", A, inner_dims), outer_dims)))
     # three levels
     for _ in range(6000 if thorough else 200):
         d1, d2, d3 = rng.choice(cats), rng.choice(cats), rng.choice(["Shaped", rng.choice(cats)])
@@ -194,7 +199,10 @@ def run(tier, seed, out, drv, facts):
             if isinstance(m, dict) and "skip" in m:
                 out.count("model_skip")
                 continue
-            real_back = describe(pickle.loads(pickle.dumps(ann)))
+            try:
+                real_back = describe(pickle.loads(pickle.dumps(ann)))
+            except BaseException as e:  # noqa: BLE001 - reported by the route checks above; here only model vs implementation
+                real_back = {"r": "RAISES-" + type(e).__name__}
             if describe(ann).get("alts", [None])[0] != m.get("orig"):
                 out.model_diff("pickle:orig", f"implementation builds {describe(ann)}, model {m.get('orig')}", {"spec": sp})
             elif real_back != m.get("back"):
